@@ -12,8 +12,8 @@ import (
 
 func init() {
 	register(&propDef{ID: "C14", Run: runC14,
-		Explain:    "Structural necessary conditions of 'decoded headers are re-encoded without loss', decided on SSA/value flow of /repo: (1) format-taint: no network-derived string is the format operand of a fmt call; (2) decoder-errors: inside the header/URI decoders no error result of a sub-decoder or of strconv is discarded; (3) field-coverage: every field a decoder writes into a decoded type is read by that type's printer; (4) no-defaulting-printer: a printer never calls an accessor that substitutes a constant default; (5) delimiter-agreement: every constant separator a decoder strips at the level of a type (Split/Fields separators, tested-and-skipped first byte, exclusive index splits, stripped prefixes) is emitted by the printer of that type; sibling printers (Route vs Record-Route) are compared through the same rule; (6) accessor-keys: named accessors use the RFC 3261 parameter names, getter and setter alike; (7) ordered-lists: decoders only append to their lists and printers walk them with forward range loops; (8) decoder-grammar: a decoder that separates host and port at ':' takes a bracketed IPv6 reference into account (two open findings); ParseSipURI cuts the user part at the first '@', then the headers at the first '?', then the parameters at the first ';' (shared with C04/C16).",
-		NotDecided: "the round-trip law itself; value-level losses these rules cannot see (';' kept in a bare addr-spec, IPv6 references, user parts containing ';' or '?', a parameter written 'name=' with an empty value)."})
+		Explain:    "Structural necessary conditions of 'decoded headers are re-encoded without loss', decided on SSA/value flow of /repo: (1) format-taint: no network-derived string is the format operand of a fmt call; (2) decoder-errors: inside the header/URI decoders no error result of a sub-decoder or of strconv is discarded; (3) field-coverage: every field a decoder writes into a decoded type is read by that type's printer; (4) no-defaulting-printer: a printer never calls an accessor that substitutes a constant default; (5) delimiter-agreement: every constant separator a decoder strips at the level of a type (Split/Fields separators, tested-and-skipped first byte, exclusive index splits, stripped prefixes) is emitted by the printer of that type; sibling printers (Route vs Record-Route) are compared through the same rule; (6) accessor-keys: named accessors use the RFC 3261 parameter names, getter and setter alike; (7) ordered-lists: decoders only append to their lists and printers walk them with forward range loops; (8) decoder-grammar: a decoder that separates host and port at ':' takes a bracketed IPv6 reference into account (two open findings); ParseSipURI cuts the user part at the first '@', then the headers at the first '?', then the parameters at the first ';' (shared with C04/C16); in the decoders of the types that carry a name-addr every search for '<', '>' and every split at ',' goes through a function that looks at '\"' (quoted display names; repaired as D23), and a single-loop scanner does not decide that a quote is escaped from the one byte before it; (9) kept separators (delimiter-agreement): a decoder that hands a sub-decoder the text including the separator it found needs a sub-decoder that strips that byte (repaired as D24); (10) decoder purity (pure-capture): decoders use no package-level state other than read-only tables.",
+		NotDecided: "the round-trip law itself; value-level behaviour of hand-written scanners beyond the structural conditions above; losses on input the grammar does not allow (a parameter written 'name=' with an empty value, blank runs in start lines); a ',' inside the angle brackets of a Route entry."})
 }
 
 // decodedTypes are the struct types that hold decoded header/URI content.
@@ -1103,6 +1103,12 @@ func c14QuotedNames(c *Ctx) {
 			n++
 			per[b]++
 			aware := callee != nil && w.isMain(callee) && looksAtQuotes(callee, 0)
+			if b == ',' {
+				// a list is cut at the commas between its elements: not at one inside the angle brackets of an element either
+				// (<sip:a,b@example.com> - ',' is allowed in a URI's user part). Repaired as D27.
+				inBrackets := aware && comparesWithByte(w, callee, '<', 0) && comparesWithByte(w, callee, '>', 0)
+				c.check(inBrackets, rule, fmt.Sprintf("%s/list-split-respects-angle-brackets#%d", w.fname(fn), per[b]), w.ipos(call), "the list splitter leaves what is inside <...> alone", fmt.Sprintf("%s cuts its list at every ',' outside quoted-strings, also at one inside the angle brackets of an element: Route: <sip:ab,cd@10.0.0.9:5070;lr> cannot be decoded, the Route is ignored and the request follows the static route of the To host instead", w.fname(fn)))
+			}
 			c.check(aware, rule, fmt.Sprintf("%s/quoted-display-name/%q#%d", w.fname(fn), string(b), per[b]), w.ipos(call), "searches with a function that leaves quoted-strings alone", fmt.Sprintf("%s looks for %q with %s, which also finds it inside a quoted display name: From: \"Bob <work>\" <sip:bob@example.com>;tag=x is decoded with the address \"work\" and written back as \"Bob <work>;tag=x (the URI is lost), a Route list with \"Smith, John\" <sip:..> cannot be decoded at all", w.fname(fn), string(b), cs.Name))
 		}
 	}
@@ -1163,6 +1169,31 @@ func c14QuotedNames(c *Ctx) {
 		}
 		c.check(!(lookBehind != "" && nLoops <= 1), rule, w.fname(fn)+"/quoted-pair", w.pos(fn.Pos()), "a backslash is judged where it stands", w.fname(fn)+" decides whether a quote is escaped from the single byte before it (at "+lookBehind+"): a display name that ends in an escaped backslash, \"Ann \\\\\" <sip:ann@example.com>, never closes for it - the '<' is not found and the header is decoded as a bare addr-spec or not at all")
 	}
+}
+
+// comparesWithByte: fn, or a package function it calls, compares a byte with the constant b.
+func comparesWithByte(w *World, fn *ssa.Function, b byte, d int) bool {
+	if fn == nil || fn.Blocks == nil || d > 3 {
+		return false
+	}
+	res := false
+	eachInstr(fn, func(in ssa.Instruction) {
+		if bo, ok := in.(*ssa.BinOp); ok && (bo.Op == token.EQL || bo.Op == token.NEQ) {
+			for _, o := range []ssa.Value{bo.X, bo.Y} {
+				if k, isK := constInt(o); isK && k == int64(b) {
+					if bt, isB := o.Type().Underlying().(*types.Basic); isB && bt.Info()&types.IsInteger != 0 {
+						res = true
+					}
+				}
+			}
+		}
+		if call, ok := in.(*ssa.Call); ok {
+			if callee := call.Call.StaticCallee(); callee != nil && w.isMain(callee) && callee != fn && comparesWithByte(w, callee, b, d+1) {
+				res = true
+			}
+		}
+	})
+	return res
 }
 
 func c14HostGrammar(c *Ctx) {
@@ -1438,6 +1469,12 @@ func accumulatedList(v ssa.Value) (ok bool, appended bool) {
 
 // accumulatedListFamily is accumulatedList that also returns the values (phi nodes, appends, the empty list) involved.
 func accumulatedListFamily(v ssa.Value) (ok bool, appended bool, family map[ssa.Value]bool) {
+	return accumulatedListFamilyOn(v, "")
+}
+
+// accumulatedListFamilyOn: as accumulatedListFamily; with ref != "" the accumulation may also start from the list the
+// field ref holds already (`x.params, err = appendAll(text, x.params)`: the chain appends to the field's own list).
+func accumulatedListFamilyOn(v ssa.Value, ref string) (ok bool, appended bool, family map[ssa.Value]bool) {
 	family = map[ssa.Value]bool{}
 	var leaves []ssa.Value
 	var walk func(x ssa.Value, d int)
@@ -1467,6 +1504,11 @@ func accumulatedListFamily(v ssa.Value) (ok bool, appended bool, family map[ssa.
 	for _, l := range leaves {
 		if isEmptyList(l) {
 			continue
+		}
+		if ref != "" {
+			if _, isL := isLoadOf(l, ref); isL {
+				continue
+			}
 		}
 		ap, isCall := l.(*ssa.Call)
 		if !isCall {
@@ -1499,7 +1541,7 @@ func c14OrderedLists(c *Ctx) {
 					c.ok(rule, ref+"<-"+w.fname(fn), w.ipos(st), "decoder sizes the list by its source and stores element i at index i for every source element")
 					continue
 				}
-				if okAcc, _ := accumulatedList(st.Val); okAcc {
+				if okAcc, _, _ := accumulatedListFamilyOn(st.Val, ref); okAcc {
 					c.ok(rule, ref+"<-"+w.fname(fn), w.ipos(st), "decoder stores a list accumulated by appending one element at a time, in input order")
 					continue
 				}
@@ -1513,7 +1555,7 @@ func c14OrderedLists(c *Ctx) {
 				if isAppendOne(st.Val, ref) || w.sizedFill(fn, st, ref) {
 					filled = true
 				}
-				if okAcc, app := accumulatedList(st.Val); okAcc && app {
+				if okAcc, app, _ := accumulatedListFamilyOn(st.Val, ref); okAcc && app {
 					filled = true
 				}
 			}
